@@ -258,6 +258,26 @@ def errprop(ctx):
     ctx.ob('ERRPROP', 'no-error-discarding-adaptor', not found, None,
            'Result adaptors that can swallow an error in the container reader module: %s (of %d Result adaptor calls)' % (found or 'none', n))
     ctx.floor('ERRPROP', 'Result adaptor calls in the reader module', n, 10)
+    # a Result coming straight from an I/O or reading primitive that is matched by hand: its Err arm returns Err
+    bad = []
+    k = 0
+    for b in f.body_list:
+        fl = fn_label(b)
+        if not (fl.startswith(P) or fl.startswith('<' + P)):
+            continue
+        for si in b.switches_on_adt('core::result::Result'):
+            so = origin(b, si['place'])
+            io_calls = [c for c in so.calls if (c.get('callee') or '').startswith(('std::io::', 'de::read::'))]
+            if not io_calls or len(so.calls) != len(io_calls):
+                continue
+            k += 1
+            eb = si['variants'].get('Err')
+            if eb is None and 'Err' in (si.get('otherwise_variants') or []):
+                eb = si['otherwise']
+            if eb is None or not all_paths_err(b, eb):
+                bad.append('%s: %s' % (short_fn(fl), (io_calls[0].get('callee') or '').rsplit('::', 1)[1]))
+    ctx.ob('ERRPROP', 'hand-matched-io-results-propagate', not bad, None,
+           'matches on the Result of an I/O / reading primitive whose Err arm does not return Err: %s (of %d such matches)' % (bad or 'none', k))
 
 
 def erronce(ctx):
